@@ -163,6 +163,18 @@ Definition modelled_go_statements : list (string * string) :=
     ("internal/lossy/encode_parallel.go", "encodeFrameParallel")
   ].
 
+(** Semantic check used by the correspondence: the ranges a site handed to its workers (as
+    logged by the hook, in spawn order, empty ranges allowed anywhere) tile [lo, hi) from
+    left to right.  Any arithmetic that produces such a tiling passes — the check does not
+    compare with a particular formula. *)
+Fixpoint tiles_from (rs : list range) (cur hi : Z) : bool :=
+  match rs with
+  | [] => Z.eqb cur hi
+  | r :: tl => if Z.leb (snd r) (fst r) then tiles_from tl cur hi            (* empty range *)
+               else Z.eqb (fst r) cur && Z.leb (snd r) hi && tiles_from tl (snd r) hi
+  end.
+Definition is_tiling (rs : list range) (lo hi : Z) : bool := Z.leb lo hi && tiles_from rs lo hi.
+
 (** Partition shape of every go statement, as recognised from the source by
     tools/gosrc2v/partshapes.go (Gen/PartShapes.v; an unknown shape makes the translator
     refuse).  A shape name is the model function above whose exact-cover theorem
